@@ -93,7 +93,8 @@ def c10_ops(t: P2, p: int, names: int, second: int) -> bool:
 def _sh(tier):
     if tier == "quick":
         return [{"p": 1, "names": 0, "second": 0}, {"p": 1, "names": 1, "second": 6}] + \
-            product_pins(p=[2], h0=[0], l0=[0, 1, 2], names=[0, 1], second=[0, 3, 6])
+            product_pins(p=[2], h0=[0], l0=[0, 1, 2], names=[0, 1], second=[0, 3, 6]) + \
+            product_pins(p=[2], h0=[0], l0=[1, 2], names=[2], second=[3, 6])
     return product_pins(p=[0, 1], names=[0, 1, 2, 3], second=list(range(8))) + \
         product_pins(p=[2], h0=[0, 1], l0=[0, 1, 2], names=[0, 1, 2, 3], second=list(range(8)))
 
@@ -105,7 +106,7 @@ RULE = "first operand has a production and a non-empty language up to length 3"
 CONDS = [
     Cond("C10", c10_ops, _sh,
          {"quick": "G1: grammars with 1-2 productions over 2 variables/{a,b}, bodies <=2 (2 productions: first head = "
-                   "start symbol), variable names {S,A} or {#STARTUNION#,#VARPOSCLOS#}; G2 in {G1 itself, S->a, "
+                   "start symbol), variable names {S,A}, {#STARTUNION#,#VARPOSCLOS#} or {S#SUBS#0,S}; G2 in {G1 itself, S->a, "
                    "S->A A->b (shared names)}; union, concatenate, get_closure, get_positive_closure, reverse, "
                    "substitute(a -> G2); languages compared on words of length <=3",
           "thorough": "all 904 G1 x 4 name sets x 8 second operands (same object, empty, eps-only, S->a, S->b, "
